@@ -50,7 +50,7 @@ def _texts_random(rng, n, ndata, convert):
     if not convert:
         alpha += "^_<>"
     rows = []
-    kinds = [rng.choice(["str", "str", "int", "float"]) for _ in range(ndata)]
+    kinds = [rng.choice(["str", "str", "str", "int", "float", "bool", "f32", "date", "datetime"]) for _ in range(ndata)]
     for _ in range(n):
         row = []
         for k in range(ndata):
@@ -59,7 +59,16 @@ def _texts_random(rng, n, ndata, convert):
             elif kinds[k] == "int":
                 row.append(rng.randint(-10**6, 10**6))
             elif kinds[k] == "float":
-                row.append(rng.choice([0.5, -1.25, 3.0, 1e-7, 12345.678, float(rng.randint(0, 99)) / 8]))
+                row.append(rng.choice([0.5, -1.25, 3.0, 1e-7, 12345.678, float("nan"), 2.5e-5, 1e16, float(rng.randint(0, 99)) / 8]))
+            elif kinds[k] == "f32":
+                row.append(rng.choice([1.1, 0.1, -2.7, 3.0, 1e-5]))
+            elif kinds[k] == "bool":
+                row.append(rng.random() < 0.5)
+            elif kinds[k] == "date":
+                row.append("20%02d-%02d-%02d" % (rng.randint(0, 30), rng.randint(1, 12), rng.randint(1, 28)))
+            elif kinds[k] == "datetime":
+                row.append("20%02d-%02d-%02dT%02d:%02d:%02d" % (rng.randint(0, 30), rng.randint(1, 12), rng.randint(1, 28), rng.randint(0, 23), rng.randint(0, 59), rng.randint(0, 59))
+                           + rng.choice(["", ".250000"]))
             else:
                 ln = rng.choice([0, 1, 3, 8, 20, 60, 150])
                 t = "".join(rng.choice(alpha) for _ in range(ln))
